@@ -328,3 +328,106 @@ pub fn scn_merge(out: &mut TraceOut, r: &mut R, idx: u64, heavy: bool) {
         Err(e) => out.ev(json!({"ev": "End", "res": "panic", "detail": panic_msg(e)})),
     }
 }
+
+/// Spec -> implementation for the merger: every overlap pattern TLC explored in the Merger model
+/// (sources as subsets of a few model keys) is replayed on the real merger. A model key stands for
+/// a group of consecutive real keys (so that sources span several blocks and index levels); the
+/// recorded run is judged by TLC (TraceMerger) and the order of sources the model predicts for
+/// every key is compared with the real output (drift).
+pub fn replay_mruns(out: &mut TraceOut, doc: &Value, r: &mut R) -> (u64, u64) {
+    let mut compared = 0u64;
+    let mut drift = 0u64;
+    for (ri, run) in doc["runs"].as_array().unwrap().iter().enumerate() {
+        out.begin(&format!("mrun/{}/{}", doc["name"].as_str().unwrap_or("m"), ri));
+        let model_srcs: Vec<Vec<u64>> = run["srcs"].as_array().unwrap().iter()
+            .map(|s| s.as_array().unwrap().iter().map(|k| k.as_u64().unwrap()).collect()).collect();
+        let group = *pick(r, &[1usize, 1, 3, 7, 12]);
+        let long = r.gen_bool(0.6);
+        let real_key = |k: u64, j: usize| -> Vec<u8> {
+            let id = (k as u32) * 100 + j as u32;
+            if long { long_key(id) } else { id.to_be_bytes().to_vec() }
+        };
+        let mut srcs: Vec<Vec<Entry>> = Vec::new();
+        for (i, s) in model_srcs.iter().enumerate() {
+            let mut entries = Vec::new();
+            for k in s {
+                for j in 0..group {
+                    let p = entries.len() + 1;
+                    entries.push((real_key(*k, j), token(i + 1, p, *pick(r, &[0usize, 5, 5, 9, 60, 400]))));
+                }
+            }
+            srcs.push(entries);
+        }
+        let sources = Sources::new(srcs);
+        let dict = Dict::build(sources.srcs.iter().flat_map(|s| s.iter().map(|(k, _)| k.clone())));
+        out.ev(dict.event());
+        let mut files = Vec::new();
+        let mut failed = false;
+        for (i, s) in sources.srcs.iter().enumerate() {
+            let cfg = tree_cfg(r);
+            let keys: Vec<i64> = s.iter().map(|(k, _)| dict.id(k)).collect();
+            out.ev(json!({"ev": "Src", "i": i + 1, "keys": keys, "cfg": cfg.json()}));
+            match write_file(&cfg, s).bytes {
+                Some(b) => files.push(b),
+                None => failed = true,
+            }
+        }
+        if failed {
+            out.ev(json!({"ev": "Built", "res": "source-write-failed", "mf": "concat"}));
+            continue;
+        }
+        let rec = Recorder { mf: Mf::Concat, calls: RefCell::new(Vec::new()) };
+        let mut real_out: Vec<(Vec<u8>, Vec<[i64; 2]>)> = Vec::new();
+        let res = catch_unwind(AssertUnwindSafe(|| -> Result<(), String> {
+            let mut builder = Merger::builder(&rec);
+            for f in &files {
+                builder.push(Reader::new(crate::cursor::Src::new(std::rc::Rc::new(f.clone()))).and_then(Reader::into_cursor).map_err(|e| e.to_string())?);
+            }
+            out.ev(json!({"ev": "Built", "res": "ok", "mf": "concat", "how": 1, "stream_writer": false}));
+            let mut it = builder.build().into_stream_merger_iter().map_err(|e| e.to_string())?;
+            loop {
+                let item = it.next().map_err(|e| e.to_string())?.map(|(k, v)| (k.to_vec(), v.to_vec()));
+                for (k, vals) in rec.calls.borrow_mut().drain(..) {
+                    let kid = dict.strs.binary_search(&k).map(|i| i as i64 + 1).unwrap_or(0);
+                    out.ev(json!({"ev": "MergeCall", "k": kid, "vals": sources.name_vals(&k, &vals)}));
+                }
+                match item {
+                    Some((k, v)) => {
+                        let kid = dict.strs.binary_search(&k).map(|i| i as i64 + 1).unwrap_or(0);
+                        let named = sources.name_out(&k, &v, Mf::Concat);
+                        out.ev(json!({"ev": "Out", "k": kid, "v": named}));
+                        real_out.push((k, named));
+                    }
+                    None => break,
+                }
+                if real_out.len() > dict.strs.len() + 3 {
+                    break;
+                }
+            }
+            out.ev(json!({"ev": "End", "res": "ok"}));
+            Ok(())
+        }));
+        match res {
+            Ok(Ok(())) => {}
+            Ok(Err(e)) => out.ev(json!({"ev": "End", "res": "err", "detail": e})),
+            Err(e) => out.ev(json!({"ev": "End", "res": "panic", "detail": panic_msg(e)})),
+        }
+        // drift: per model key, the sequence of sources the model predicts
+        for o in run["out"].as_array().unwrap() {
+            let k = o[0].as_u64().unwrap();
+            let want: Vec<i64> = o[1].as_array().unwrap().iter().map(|t| t[0].as_i64().unwrap()).collect();
+            for j in 0..group {
+                compared += 1;
+                let rk = real_key(k, j);
+                let got: Option<Vec<i64>> = real_out.iter().find(|(kk, _)| *kk == rk).map(|(_, v)| v.iter().map(|t| t[0]).collect());
+                // empty values are invisible in a concatenation: compare only when all are named
+                match got {
+                    Some(g) if g == want => {}
+                    Some(g) if g.len() < want.len() && g.iter().all(|x| want.contains(x)) => {}
+                    _ => drift += 1,
+                }
+            }
+        }
+    }
+    (compared, drift)
+}
